@@ -14,7 +14,9 @@ Inputs ==
   {[args |-> a, n |-> n, L |-> l, s |-> (IF d = 99 THEN 0 ELSE CMD - 1 + d), cmd |-> CMD, x |-> x, r |-> r, sys |-> y] :
      a \in SeqsUpTo(ArgSet, MAXARGS), n \in NS, l \in LS, d \in SDELTAS, x \in BOOLEAN, r \in BOOLEAN, y \in SYSS}
 
-Init == \E i \in Inputs : ImplInit(i)
+\* (nested quantifiers instead of "\E i \in Inputs": TLC enumerates them without building the set of all inputs)
+Init == \E a \in SeqsUpTo(ArgSet, MAXARGS), n \in NS, l \in LS, d \in SDELTAS, x \in BOOLEAN, r \in BOOLEAN, y \in SYSS :
+           ImplInit([args |-> a, n |-> n, L |-> l, s |-> (IF d = 99 THEN 0 ELSE CMD - 1 + d), cmd |-> CMD, x |-> x, r |-> r, sys |-> y])
 Next == ImplNext
 Spec == Init /\ [][Next]_bvars
 
